@@ -138,6 +138,7 @@ class Runner:
         self.prov_netloc = self.world.provider_server.netloc
         self.prov_path = f'/{self.provider.path_prefix}/StateEvent'
         self.server = L.FakeHttpServer()
+        self.end_server = L.FakeHttpServer()  # every second EndTo endpoint lives on another host:port than NotifyTo
         self.sinks = {}
         self.slots = {}  # subscriber index -> current Sub
         self.all_subs = []
@@ -153,7 +154,7 @@ class Runner:
 
     # -------------------------------------------------------------------------------------------- transport
     def _intercept(self, entry):
-        if entry.netloc != self.server.netloc:
+        if entry.netloc not in (self.server.netloc, self.end_server.netloc):
             return None
         key = entry.path.strip('/').split('/')[0]
         fault = self.faults.get(key)
@@ -172,6 +173,7 @@ class Runner:
         if not self.stopped:
             self.world.close()
         self.server.stop()
+        self.end_server.stop()
 
     def post(self, path, message):
         status, _reason, body = L.NET.deliver_post(RawClient(self.prov_netloc), path, message.serialize(validate=False),
@@ -201,9 +203,13 @@ class Runner:
             ref = etree.Element('{urn:vf}Ident')
             ref.text = key
             req.Delivery.NotifyTo.ReferenceParameters = [ref]
+        end_netloc = self.server.netloc
         if with_end_to:
+            if self.gen % 2 == 0:
+                end_netloc = self.end_server.netloc
+                self.end_server.dispatcher.register_instance(key, sink)
             req.init_end_to()
-            req.EndTo.Address = f'http://{self.server.netloc}/{key}/end'
+            req.EndTo.Address = f'http://{end_netloc}/{key}/end'
         if expires is not None:
             req.Expires = expires
         req.set_filter(' '.join(action_uri(a) if not a.startswith(('urn:', 'http')) else a for a in filt))
@@ -227,6 +233,7 @@ class Runner:
         sub.manager_address = resp.SubscriptionManager.Address
         sub.ref_params = list(resp.SubscriptionManager.ReferenceParameters or [])
         sub.end_to = with_end_to
+        sub.end_netloc = end_netloc
         sub.with_ref = with_ref
         got = resp.Expires
         if got is None or got > wanted + 0.005 or abs(got - wanted) > 0.011:
@@ -465,7 +472,7 @@ class Runner:
         self.stopped = True
         ends = {}
         for e in L.NET.log[log0:]:
-            if e.netloc == self.server.netloc and e.action == f'{WSE}/SubscriptionEnd':
+            if e.netloc in (self.server.netloc, self.end_server.netloc) and e.action == f'{WSE}/SubscriptionEnd':
                 ends.setdefault(e.path.strip('/').split('/')[0], []).append(e)
         if not send_end:
             if ends:
@@ -478,10 +485,10 @@ class Runner:
                                       f'live subscription {key} received {len(got)} SubscriptionEnd messages'))
                 continue
             want_path = f'/{key}/end' if sub.end_to else f'/{key}/notify'
-            if got[0].path != want_path:
+            if got[0].path != want_path or got[0].netloc != sub.end_netloc:
                 self.findings.append((f'{P}/subscription-end-address/{self.variant}',
-                                      f'{key}: SubscriptionEnd sent to {got[0].path}, expected {want_path} '
-                                      f'(EndTo given: {sub.end_to})'))
+                                      f'{key}: SubscriptionEnd sent to {got[0].netloc}{got[0].path}, expected '
+                                      f'{sub.end_netloc}{want_path} (EndTo given: {sub.end_to})'))
             root = etree.fromstring(got[0].request)
             refs = [el.text for el in root.find(f'{{{S12}}}Header') if el.get(f'{{{WSA}}}IsReferenceParameter') == 'true']
             want_refs = [key] if sub.with_ref else []
